@@ -32,6 +32,28 @@ fn xack_ids(parts: &[RespFrame], out: &mut Vec<StreamId>) -> (r: Result<RespFram
         !ids_ok(parts@, 3) ==> (r matches Ok(f) && f is Error) && final(out)@ == old(out)@,
 //@@ body
 //@@ end
+//@@ unit xdel_ids stmts src/storage/commands/streams.rs handle_xdel "let mut ids = Vec::new();" upto "let deleted = storage.xdel"
+//@@   opt same-return-type
+//@@   rewrite RPCALL "StreamId::from_string" verif_sid_from_cow
+//@@   rewrite RT "let mut ids = Vec::new();" "let mut ids: Vec<StreamId> = Vec::new();"
+//@@   loop 0
+//@@|     invariant 2 <= i <= parts@.len(), ids@.len() == i - 2, forall|j: int| 2 <= j < i ==> #[trigger] id_arg(parts@, j) is Some,
+//@@|         forall|j: int| 0 <= j < i - 2 ==> ids@[j] == id_arg(parts@, 2 + j)->Some_0,
+//@@   loopstart 0
+//@@|     proof { if id_arg(parts@, i as int) is None { assert(!ids_ok(parts@, 2)); } }
+//@@   afterloop 0
+//@@|     proof { assert(ids@ =~= ids_from(parts@, 2)); }
+//@@   tail *out = ids; Ok(RespFrame::ok())
+fn xdel_ids(parts: &[RespFrame], out: &mut Vec<StreamId>) -> (r: Result<RespFrame>)
+    requires parts@.len() >= 3,
+    ensures
+        // C15 (XDEL key id [id ...]): every argument from the third on is an id to delete — all of them, in order; one argument that is not an id
+        // refuses the whole command before anything is deleted
+        ids_ok(parts@, 2) ==> (r matches Ok(f) && !(f is Error)) && final(out)@ == ids_from(parts@, 2),
+        !ids_ok(parts@, 2) ==> (r matches Ok(f) && f is Error) && final(out)@ == old(out)@,
+//@@ body
+//@@ end
+
 // ======================= XRANGE / XREVRANGE: bounds and COUNT (C15) =========================
 impl StreamId {
     /// ASSUMED CONTRACTS (stream.rs StreamId::min / max — units sid_min / sid_max of c16_pel)
